@@ -8,12 +8,13 @@ from common import *
 def step_worker(args):
     src, mir, profile, n, which, empty_ok, bins, real_deck, sl, nsl = args[:10]
     ctor = args[10] if len(args) > 10 else None
+    phase = args[11] if len(args) > 11 else 'entry'
     t0 = time.time()
     import z3
     import mirx
     import itermodel
     from mlib import load_lib
-    out = dict(n=n, profile=profile, slice=f'{sl+1}/{nsl}', results=[], error=None, kinds={}, ctor=None)
+    out = dict(n=n, profile=profile, slice=f'{sl+1}/{nsl}' + ('' if phase == 'entry' else ' re-entry'), results=[], error=None, kinds={}, ctor=None)
     try:
         M = load_lib(src, profile, mir)
         M.qtimeout = 300
@@ -37,23 +38,83 @@ def step_worker(args):
         else:
             S, outs = itermodel.run_step(M, src, n, empty_ok=empty_ok)
         itermodel.showdown_layout(src, S)
+        dc = []
         if real_deck:
             dc = itermodel.real_deck_constraint(S)
             for o in outs:
                 o['pc'] = o['pc'] + dc
         # the exploration is deterministic: every slice worker sees the same path list and decides its share of it
-        outs = [o for i, o in enumerate(outs) if i % nsl == sl]
-        for o in outs:
-            out['kinds'][o['kind']] = out['kinds'].get(o['kind'], 0) + 1
-        res = itermodel.evaluate(S, outs, which)
+        outs_all = outs
+        res = []
+        if phase == 'entry':
+            outs = [o for i, o in enumerate(outs) if i % nsl == sl]
+            for o in outs:
+                out['kinds'][o['kind']] = out['kinds'].get(o['kind'], 0) + 1
+            res = itermodel.evaluate(S, outs, which)
+        else:
+            # second trip round the skip loop from the loop head, with the frame's locals as the first trip left them and the iterator in an
+            # arbitrary re-entry state (valid position or the scope end): covers code hoisted in front of the loop and loop-carried locals
+            outs = []
+            cands, pre = itermodel.reentry_candidates(M, S, outs_all) if getattr(S, 'cut_head', None) is not None else ([], [])
+            out['reentry'] = dict(candidates=len(cands), preloop_locals=pre)
+            for cand in cands:
+                S2, outs2 = itermodel.run_reentry(M, src, S, cand)
+                if S2 is None:
+                    continue
+                itermodel.showdown_layout(src, S2)
+                outs2 = [o for i, o in enumerate(outs2) if i % nsl == sl]
+                for o in outs2:
+                    o['pc'] = o['pc'] + dc
+                    out['kinds']['re:' + o['kind']] = out['kinds'].get('re:' + o['kind'], 0) + 1
+                res2 = itermodel.evaluate(S2, outs2, which)
+                for d in res2:
+                    d['reentry'] = True
+                    d['S'] = S2
+                    d['cand'] = cand
+                res += res2
+                outs += outs2
         for d in res:
             rec = dict(ob=d['ob'], status=d['status'], kind=d['kind'], solver_s=round(d['solver_s'], 2))
             if d['status'] == 'sat' and d['ob'] not in ('loop-skip',):
                 m = d['model']
                 if d['out']['kind'] == 'PANIC':
                     rec['panic'] = d['out']['value']
+                if m is not None and d.get('negprop') is not None and not ctor:
+                    # prefer a witness with the smallest ranges: with one combo per player the native replay does not depend on the
+                    # (hash) order in which a range's combos sit in the entry list
+                    from mlib import sat_model as _sm
+                    import z3 as _z3
+                    Sx = d.get('S', S)
+                    for bound in (1, 2):
+                        cb, mb = _sm(list(d['out']['pc']) + list(Sx.spec_axioms) + [d['negprop']] + [_z3.ULE(Lp, bound) for Lp in S.L], timeout_s=120)
+                        if cb == _z3.sat:
+                            m = mb
+                            d['small'] = [_z3.ULE(Lp, bound) for Lp in S.L]
+                            break
+                if m is not None and d.get('reentry'):
+                    # refine the over-approximate second-trip witness into a two-trip scenario: first trip along the candidate path from a
+                    # start state of S, second trip from exactly the state the first one left
+                    cand = d['cand']
+                    import z3 as _z3
+                    st_ = cand['state']
+                    S2_ = d['S']
+                    t_ = itermodel.field(S, st_, 'current_turn_index').z(); r_ = itermodel.field(S, st_, 'current_river_index').z()
+                    link = [(_z3.Extract(7, 0, t_) if t_.size() > 8 else t_) == S2_.turn, (_z3.Extract(7, 0, r_) if r_.size() > 8 else r_) == S2_.river]
+                    link += [x.z() == y for x, y in zip(itermodel.field(S, st_, 'current_player_indexes').items, S2_.idx)]
+                    from mlib import sat_model
+                    neg = d.get('negprop')
+                    c2, m2 = sat_model(list(d['out']['pc']) + list(cand['pc']) + link + list(S.spec_axioms) + ([neg] if neg is not None else []) + d.get('small', []), timeout_s=300)
+                    if c2 != _z3.sat and d.get('small'):
+                        c2, m2 = sat_model(list(d['out']['pc']) + list(cand['pc']) + link + list(S.spec_axioms) + ([neg] if neg is not None else []), timeout_s=300)
+                    if c2 == _z3.sat:
+                        m = m2
+                        hist = itermodel.model_to_history(S, m)
+                        rec['two_trip_witness'] = True
+                    else:
+                        hist = itermodel.model_to_history(S2_, m)
+                elif m is not None:
+                    hist = itermodel.model_to_history(d.get('S', S), m)
                 if m is not None:
-                    hist = itermodel.model_to_history(S, m)
                     rec['history'] = hist
                     if hist:
                         bad, raw = itermodel.native_enumerate_bad(bins, hist, ('debug', 'release') if d['out']['kind'] != 'PANIC' or profile == 'release' else ('debug',))
@@ -104,7 +165,10 @@ def run_configs(PID, which, configs, tier, seed, t0, level='model_checking', ext
             p, n, e = cfg[:3]
             ctor = cfg[3] if len(cfg) > 3 else None
             nsl = 1 if ctor else {1: 2, 2: 6, 3: 12}.get(n, 12)
-            jobs += [(src, mirs[p], p, n, which, e, bins, real_deck, k, nsl, ctor) for k in range(nsl)]
+            jobs += [(src, mirs[p], p, n, which, e, bins, real_deck, k, nsl, ctor, 'entry') for k in range(nsl)]
+            if not ctor:
+                nre = max(1, nsl // 2)
+                jobs += [(src, mirs[p], p, n, which, e, bins, real_deck, k, nre, None, 'reentry') for k in range(nre)]
         jobs.sort(key=lambda j: -j[3])
         with Pool(min(NCPU, len(jobs))) as pool:
             results = pool.map(step_worker, jobs, chunksize=1)
